@@ -107,6 +107,71 @@ struct BigFn {
 
 static_assert(sizeof(BigFn<16>) == 16 && sizeof(BigFn<32>) == 32 && sizeof(BigFn<64>) == 64);
 
+// the same, over-aligned: for wrappers with an explicit Alignment argument. Every constructor checks where it runs - the
+// wrapper's own storage and every temporary it relocates the callable through must honour the alignment
+template <size_t Size, size_t Al>
+struct alignas(Al) BigFnOA {
+    Tracked life;
+    int id;
+    mutable int count;
+    unsigned char pad[Size - sizeof(Tracked) - 2 * sizeof(int)];
+
+    void aligned_or_report() const
+    {
+        if (reinterpret_cast<uintptr_t>(this) % Al != 0 && g_ctx != nullptr && g_ctx->stepClass != 2) {
+            LibPause pause;
+            g_ctx->violation("C02", "memory:misaligned-object", "an over-aligned callable was constructed at " + Registry::where(this) + ", which is not a multiple of its alignment");
+        }
+    }
+
+    BigFnOA(int i, int c)
+        : life(i)
+        , id(i)
+        , count(c)
+    {
+        for (auto& p : pad) {
+            p = static_cast<unsigned char>(i);
+        }
+    }
+
+    BigFnOA(BigFnOA const& o)
+        : life(o.life)
+        , id(o.id)
+        , count(o.count)
+    {
+        aligned_or_report();
+        for (size_t i = 0; i < sizeof(pad); ++i) {
+            pad[i] = o.pad[i];
+        }
+    }
+
+    BigFnOA(BigFnOA&& o) noexcept
+        : life(static_cast<Tracked&&>(o.life))
+        , id(o.id)
+        , count(o.count)
+    {
+        aligned_or_report();
+        for (size_t i = 0; i < sizeof(pad); ++i) {
+            pad[i] = o.pad[i];
+        }
+    }
+
+    auto operator()(int x, int& r, Tracked const& c, TrackedMoveOnly&& m) const -> int
+    {
+        for (auto p : pad) {
+            if (p != static_cast<unsigned char>(id)) {
+                return -777;
+            }
+        }
+        if (life.v != id) {
+            return -778;
+        }
+        return target_body(id, count, x, r, c, static_cast<TrackedMoveOnly&&>(m));
+    }
+};
+
+static_assert(sizeof(BigFnOA<64, 64>) == 64 && alignof(BigFnOA<64, 64>) == 64);
+
 struct TargetModel {
     int kind  = 0; // 0 free function, 1 SmallFn, 2 BigFn<16>, 3 BigFn<Cap>
     int id    = 0;
@@ -114,9 +179,9 @@ struct TargetModel {
 };
 
 // ================================================================================================ inplace_function
-template <size_t Cap>
-struct FnDriver : DriverBase<FnDriver<Cap>> {
-    using Base = DriverBase<FnDriver<Cap>>;
+template <size_t Cap, size_t Align = 0>
+struct FnDriver : DriverBase<FnDriver<Cap, Align>> {
+    using Base = DriverBase<FnDriver<Cap, Align>>;
     using Base::begin_op;
     using Base::call;
     using Base::ctx;
@@ -125,7 +190,9 @@ struct FnDriver : DriverBase<FnDriver<Cap>> {
     using Base::plan;
     using Base::pool;
     using Base::skip;
-    using F = etl::inplace_function<Sig, Cap>;
+    // Align == 0: the default alignment; otherwise an explicit Alignment argument (and an over-aligned callable of
+    // exactly the capacity as target kind 3)
+    using F = std::conditional_t<Align == 0, etl::inplace_function<Sig, Cap>, etl::inplace_function<Sig, Cap, (Align == 0 ? alignof(void*) : Align)>>;
     static constexpr size_t SmallCap = Cap >= 32 ? 16 : 8;
     using FS = etl::inplace_function<Sig, SmallCap>; // source of converting copies / moves
     static constexpr int nkinds = Cap >= 32 ? 4 : (Cap >= 16 ? 3 : 2);
@@ -138,7 +205,7 @@ struct FnDriver : DriverBase<FnDriver<Cap>> {
     {
     }
 
-    auto raw(int s) -> void* { return arena_prepare(s, sizeof(F), plan.cfg, static_cast<uint64_t>(ctx.step + 1)); }
+    auto raw(int s) -> void* { return arena_prepare(s, sizeof(F), plan.cfg, static_cast<uint64_t>(ctx.step + 1), alignof(F)); }
 
     static auto tracked_inside(std::optional<TargetModel> const& m) -> size_t { return m.has_value() && m->kind >= 2 ? 1 : 0; }
 
@@ -230,7 +297,11 @@ struct FnDriver : DriverBase<FnDriver<Cap>> {
             break;
         default:
             if constexpr (Dst::capacity::value >= 32) {
-                apply(BigFn<Dst::capacity::value>(id, 0));
+                if constexpr (Dst::alignment::value > alignof(etl::max_align_t)) {
+                    apply(BigFnOA<Dst::capacity::value, Dst::alignment::value>(id, 0));
+                } else {
+                    apply(BigFn<Dst::capacity::value>(id, 0));
+                }
             }
             break;
         }
@@ -936,7 +1007,7 @@ struct PairDriver : DriverBase<PairDriver<A, B>> {
     {
     }
 
-    auto raw(int s) -> void* { return arena_prepare(s, sizeof(P), plan.cfg, static_cast<uint64_t>(ctx.step + 1)); }
+    auto raw(int s) -> void* { return arena_prepare(s, sizeof(P), plan.cfg, static_cast<uint64_t>(ctx.step + 1), alignof(P)); }
 
     void destroy(int s)
     {
@@ -1024,8 +1095,11 @@ struct PairDriver : DriverBase<PairDriver<A, B>> {
                     })) {
                     return;
                 }
-                M const& ma     = model[x];
-                M const& mb     = model[y];
+                // the reference: std::pair over the same comparison semantics (the model stores plain values)
+                using RA        = std::conditional_t<std::is_same_v<A, Coarse>, Coarse, int>;
+                using RB        = std::conditional_t<std::is_same_v<B, Coarse>, Coarse, int>;
+                std::pair<RA, RB> const ma(RA(model[x].first), RB(model[x].second));
+                std::pair<RA, RB> const mb(RA(model[y].first), RB(model[y].second));
                 bool const w[6] = {ma == mb, ma != mb, ma < mb, ma <= mb, ma > mb, ma >= mb};
                 for (int k = 0; k < 6; ++k) {
                     if (r[k] != w[k]) {
@@ -1366,7 +1440,7 @@ struct TupleDriver : DriverBase<TupleDriver<A, B, C>> {
         }
     };
 
-    auto raw(int s) -> void* { return arena_prepare(s, sizeof(T), plan.cfg, static_cast<uint64_t>(ctx.step + 1)); }
+    auto raw(int s) -> void* { return arena_prepare(s, sizeof(T), plan.cfg, static_cast<uint64_t>(ctx.step + 1), alignof(T)); }
 
     void destroy(int s)
     {
@@ -1681,6 +1755,7 @@ void register_fn_0()
     add<FnDriver<16>>("inplace_function<Sig,16>", {"C20", "C03", "C05", "C02"});
     add<FnDriver<32>>("inplace_function<Sig,32>", {"C20", "C03", "C05", "C02"});
     add<FnDriver<64>>("inplace_function<Sig,64>", {"C20", "C03", "C05", "C02"});
+    add<FnDriver<64, 64>>("inplace_function<Sig,64,align64>", {"C20", "C03", "C05", "C02"});
     add<RefDriver>("function_ref+reference_wrapper+bind_front+not_fn+invoke", {"C20"});
 }
 
@@ -1697,6 +1772,7 @@ void register_fn_1()
     add<PairDriver<sim::Tracked, int>>("pair<Tracked,int>", {"C20", "C03"});
     add<PairDriver<sim::Tracked, sim::Tracked>>("pair<Tracked,Tracked>", {"C20", "C03"});
     add<PairDriver<int, sim::TrackedOA>>("pair<int,TrackedOA>", {"C20", "C03"}); // over-aligned second element
+    add<PairDriver<sim::Coarse, int>>("pair<Coarse,int>", {"C20"});             // operator< coarser than operator==
     add<PairDriver<sim::TrackedMoveOnly, sim::Tracked>>("pair<TrackedMoveOnly,Tracked>", {"C20", "C03"});
     add<PairDriver<sim::TrackedCopyOnly, sim::TrackedB>>("pair<TrackedCopyOnly,TrackedB>", {"C20", "C03"});
     add<TupleDriver<int, int, int>>("tuple<int,int,int>", {"C20"});
